@@ -33,3 +33,22 @@ Definition i_spec (c : icase) : bool :=
 
 Definition i_nontrivial (c : icase) : bool :=
   match c with CId _ qid _ _ rid _ _ _ _ _ _ _ _ => negb (qid =? rid) || (qid =? 0) || (qid =? 65535) end.
+
+(** * Replies stay the caller's (harness/idx Held)
+
+    A sequence of exchanges on one real upstream (udp with TCP fallback; the first reply is truncated and the
+    TCP retry cannot connect) whose successful replies the caller keeps until the end and then reads again.
+    Per exchange: the query's name index and id; whether it succeeded; the name index and id of the reply when
+    it came back, and again at the end of the sequence (0 0 when it failed). *)
+Inductive hcase := CHeld (l : list (N * N * bool * N * N * N * N)).
+
+Definition h_ok (x : N * N * bool * N * N * N * N) : bool :=
+  let '(qn, qid, ok, rn, rid, ln, lid) := x in
+  if ok then (rn =? qn) && (rid =? qid) && (ln =? rn) && (lid =? rid) else true.
+
+(** The model: a reply is an immutable value answering its own query. *)
+Definition h_agree (c : hcase) : bool := match c with CHeld l => forallb h_ok l end.
+(** C01: what an exchange returned is the reply to its own query, and it stays that (it is not handed to, or
+    overwritten for, another exchange while the caller holds it). *)
+Definition h_spec (c : hcase) : bool := match c with CHeld l => forallb h_ok l end.
+Definition h_nontrivial (c : hcase) : bool := match c with CHeld l => (3 <=? length l)%nat end.
